@@ -204,6 +204,17 @@ def gen(rng, tier):
         cases.append(Case("tx.parse " + hx(replace_field(jS, "accessList", json.dumps([[aS, [tok]]]))), tags=("substituted", "storage-key")))
     for tok in substitute("0xdeadbeef", 2):
         cases.append(Case("tx.parse " + hx(replace_field(jS, "data", json.dumps(tok))), tags=("substituted", "data")))
+    # … and by a digit look-alike (control characters that a case fold turns into digits, : ; < = > ? @ `, p..y, full-width and
+    # other Unicode digits) at the first, a middle and the last digit
+    from vlib.core import substitute_lookalikes
+    for tok in substitute_lookalikes("0x1f4a", 2) + substitute_lookalikes("123456"):
+        cases.append(Case("tx.parse " + hx(replace_field(jS, rng.choice(NUMERIC["eip1559"]), json.dumps(tok))), tags=("substituted", "number-string", "digit-lookalike")))
+    for tok in substitute_lookalikes(aS, 2):
+        cases.append(Case("tx.parse " + hx(replace_field(jS, "to", json.dumps(tok))), tags=("substituted", "to", "digit-lookalike")))
+    for tok in substitute_lookalikes(kS, 2, 2):
+        cases.append(Case("tx.parse " + hx(replace_field(jS, "accessList", json.dumps([[aS, [tok]]]))), tags=("substituted", "storage-key", "digit-lookalike")))
+    for tok in substitute_lookalikes("0xdeadbeef", 2):
+        cases.append(Case("tx.parse " + hx(replace_field(jS, "data", json.dumps(tok))), tags=("substituted", "data", "digit-lookalike")))
     # which kind a document is, and which field sets are refused: every subset of the pricing / access-list fields
     for j, sub, wc in txgen.field_mixes(rng):
         cases.append(Case("tx.parse " + hx(j), tags=("field-mix", "fields:" + sub)))
